@@ -72,6 +72,84 @@ pub fn merge_and_check(g: &Grammar, ta: &str, tb: &str) -> Result<Vec<MV>, Strin
     Ok(v)
 }
 
+
+/// every name-indexed list of the module answers lookups by name with the element at the position it reports
+pub fn index_coherent(f: &a2lfile::A2lFile) -> Result<(), String> {
+    use a2lfile::A2lObjectName;
+    let m = &f.project.module[0];
+    macro_rules! chk {
+        ($l:expr, $what:expr) => {
+            for (i, x) in $l.iter().enumerate() {
+                let n = x.get_name();
+                let first = $l.iter().position(|y| y.get_name() == n).unwrap_or(i);
+                if $l.index(n) != Some(first) || !$l.contains_key(n) || $l.get(n).map(|y| y.get_name()) != Some(n) {
+                    return Err(format!("{}: lookup of {n} gives index {:?}, the element is at {first}", $what, $l.index(n)));
+                }
+            }
+            if $l.keys().count() != { let mut s = std::collections::BTreeSet::new(); $l.iter().for_each(|x| { s.insert(x.get_name().to_string()); }); s.len() } {
+                return Err(format!("{}: the name index holds {} keys for {} elements", $what, $l.keys().count(), $l.len()));
+            }
+        };
+    }
+    chk!(m.axis_pts, "axis_pts");
+    chk!(m.blob, "blob");
+    chk!(m.characteristic, "characteristic");
+    chk!(m.compu_method, "compu_method");
+    chk!(m.compu_tab, "compu_tab");
+    chk!(m.compu_vtab, "compu_vtab");
+    chk!(m.compu_vtab_range, "compu_vtab_range");
+    chk!(m.frame, "frame");
+    chk!(m.function, "function");
+    chk!(m.group, "group");
+    chk!(m.instance, "instance");
+    chk!(m.measurement, "measurement");
+    chk!(m.record_layout, "record_layout");
+    chk!(m.transformer, "transformer");
+    chk!(m.typedef_axis, "typedef_axis");
+    chk!(m.typedef_blob, "typedef_blob");
+    chk!(m.typedef_characteristic, "typedef_characteristic");
+    chk!(m.typedef_measurement, "typedef_measurement");
+    chk!(m.typedef_structure, "typedef_structure");
+    chk!(m.unit, "unit");
+    if let Some(p) = &m.mod_par {
+        chk!(p.memory_segment, "memory_segment");
+    }
+    Ok(())
+}
+
+/// modules for the histories on one live object: the same names in every namespace with three different contents, the
+/// names a renaming produces, and a module that refers to them
+fn live_menu(g: &Grammar) -> Vec<String> {
+    let kinds = ["MEASUREMENT", "CHARACTERISTIC", "COMPU_METHOD", "UNIT", "RECORD_LAYOUT", "FRAME", "TRANSFORMER", "COMPU_VTAB", "TYPEDEF_AXIS", "MEMORY_SEGMENT", "GROUP", "FUNCTION"];
+    let names = ["X", "XC", "CM", "U", "RL", "FR", "T", "V", "TA", "SEG", "G", "F"];
+    let all = |c: &str, suffix: &str| -> Vec<ESpec> { kinds.iter().zip(names.iter()).map(|(k, n)| e(k, &format!("{n}{suffix}"), c)).collect() };
+    vec![file_text(g, "L1", &all("c1", "")), file_text(g, "L2", &all("c2", "")), file_text(g, "L3", &all("c3", "")), file_text(g, "L4", &all("c1", ".MERGE")), file_text(g, "L5", &[e("MEASUREMENT", "X", "c2"), e("UNIT", "U", "c1"), e("COMPU_METHOD", "CM", "c2").kid(ks("REF_UNIT", &[("unit", "U")]))])]
+}
+
+/// one history of merges on a live object; Err((step, MV)) for the first problem
+fn live_history(g: &Grammar, start: &str, menu: &[String], hist: &[usize]) -> Result<u64, (usize, MV)> {
+    let _ = g;
+    let mk = |o: &'static str, w: String| MV { category: "conservation", oracle: o, detail: "live".into(), what: w };
+    let Loaded::Ok(mut f, _) = load(start, None, false) else { return Err((0, mk("machinery", "start does not load".into()))) };
+    let mut steps = 0u64;
+    for (i, j) in hist.iter().enumerate() {
+        let Loaded::Ok(mut o, _) = load(&menu[*j], None, false) else { return Err((i, mk("machinery", "menu module does not load".into()))) };
+        let sa = module_snapshot(&f).map_err(|e| (i, mk("machinery", e)))?;
+        let sb = module_snapshot(&o).map_err(|e| (i, mk("machinery", e)))?;
+        vcore::explore::guard(std::panic::AssertUnwindSafe(|| f.merge_modules(&mut o))).map_err(|p| (i, mk("panic", p)))?;
+        steps += 1;
+        let sr = module_snapshot(&f).map_err(|e| (i, mk("machinery", e)))?;
+        if let Some(v) = check_merge(&sa, &sb, &sr).into_iter().find(|v| v.category == "conservation") {
+            return Err((i, v));
+        }
+        index_coherent(&f).map_err(|w| (i, mk("name-index-incoherent-after-merge", w)))?;
+    }
+    if let crate::c01::RT::Viol { oracle, what } = crate::hist::roundtrip_modulo_order(&f) {
+        return Err((hist.len().saturating_sub(1), MV { category: "conservation", oracle: "merged-file-not-stable", detail: oracle.to_string(), what }));
+    }
+    Ok(steps)
+}
+
 struct Case8 {
     label: String,
     ns: String,
@@ -271,19 +349,72 @@ pub fn run(tier: &str) -> Run {
         }
         frontier = next;
     }
+    // histories on one live object (the state keeps its in-memory indexes between the merges): every sequence of merges up
+    // to the depth over the live menu, from an empty module and from the first menu module
+    {
+        let lm = live_menu(&g);
+        let ldepth = if thorough { 5 } else { 4 };
+        let mut seqs: Vec<Vec<usize>> = Vec::new();
+        let mut fr: Vec<Vec<usize>> = vec![vec![]];
+        for _ in 0..ldepth {
+            let mut nx = Vec::new();
+            for h in &fr {
+                for j in 0..lm.len() {
+                    let mut h2 = h.clone();
+                    h2.push(j);
+                    nx.push(h2);
+                }
+            }
+            // (only maximal sequences are run: every prefix is checked on the way)
+            fr = nx;
+        }
+        seqs.extend(fr);
+        let lstarts = [empty.clone(), lm[0].clone()];
+        let lres = par_map(seqs.len() * 2, &|i| live_history(&g, &lstarts[i % 2], &lm, &seqs[i / 2]), &|i| {
+            println!("MACHINERY-ERROR: C08 live history hangs: {:?}", seqs[i / 2]);
+            std::process::exit(2);
+        });
+        for (i, r) in lres.into_iter().enumerate() {
+            run.evaluations += 1;
+            run.states.insert(fnv1a(format!("live {} {:?}", i % 2, seqs[i / 2]).as_bytes()));
+            match r {
+                Ok(n) => {
+                    run.transitions += n;
+                    run.outcome("live history: every step conserved, name indexes coherent");
+                }
+                Err((_, v)) if v.oracle == "machinery" => run.machinery(v.what),
+                Err((step, v)) => {
+                    let hist = &seqs[i / 2][..=step.min(seqs[i / 2].len() - 1)];
+                    let key = if v.oracle == "panic" { format!("C08/panic {}", vcore::explore::panic_key(&v.what)) } else { format!("C08/{}/live-history/{}", v.oracle, v.detail) };
+                    run.violation(key, format!("live object, start {}, merges {:?} (step {}): {}", ["empty", "L1"][i % 2], hist.iter().map(|j| format!("L{}", j + 1)).collect::<Vec<_>>(), step + 1, v.what), json!({"live": {"start": i % 2, "hist": hist}}));
+                }
+            }
+        }
+        run.require("live history: every step conserved, name indexes coherent", 500);
+    }
     run.outcome_n("history states (distinct module contents)", hist_states);
     run.extra.insert("history".into(), json!({"depth": depth, "menu": menu.len(), "distinct_states": hist_states}));
     run.require("objects: conserved", 500);
     run.require("typedefs: conserved", 500);
     run.require("compu_tabs: conserved", 500);
     run.require("unit: conserved", 50);
-    run.rule = "per namespace, all assignments of {absent | (kind, content c1|c2)} to the cells (name, side) for the name sets {X,Y} and {X, X.MERGE, X.MERGE2 / X.MERGE.MERGE}; the reference-site space of C09; merge empty / clone / into empty from 8 start modules; bfs over merge histories from a menu of 6 modules (states deduplicated on module content). Oracle: relational (A kept, every B element represented under an observed renaming that is fresh w.r.t. A, identical elements shared, names unique, nothing invented, merged file reloads to an equal model).".into();
+    run.rule = "per namespace, all assignments of {absent | (kind, content c1|c2)} to the cells (name, side) for the name sets {X,Y} and {X, X.MERGE, X.MERGE2 / X.MERGE.MERGE}; the reference-site space of C09; merge empty / clone / into empty from 8 start modules; bfs over merge histories from a menu of 6 modules (states deduplicated on module content); histories on one live object: every sequence of 4 (thorough 5) merges over 5 modules that hold the same names in 12 namespaces with three contents, the .MERGE names and a referrer, from two starts, the relational oracle and the coherence of every name index checked after each merge. Oracle: relational (A kept, every B element represented under an observed renaming that is fresh w.r.t. A, identical elements shared, names unique, nothing invented, merged file reloads to an equal model).".into();
     run.assumptions = vec!["USER_RIGHTS, SYSTEM_CONSTANT, MEMORY_LAYOUT and the singletons are all-or-nothing by design: only the A side and duplicate freedom are asserted for them".into()];
     run
 }
 
 pub fn replay(v: &Value) -> Result<String, String> {
     let g = crate::corpus::grammar();
+    if let Some(l) = v.get("live") {
+        let lm = live_menu(&g);
+        let empty = file_text(&g, "E", &[]);
+        let start = if l["start"].as_u64() == Some(0) { empty } else { lm[0].clone() };
+        let hist: Vec<usize> = l["hist"].as_array().ok_or("no hist")?.iter().map(|x| x.as_u64().unwrap_or(0) as usize).collect();
+        return match live_history(&g, &start, &lm, &hist) {
+            Ok(n) => Ok(format!("{n} merges conserved")),
+            Err((step, v)) => Err(format!("step {}: {}: {}", step + 1, v.oracle, v.what)),
+        };
+    }
     let ta = v["a"].as_str().ok_or("no a")?;
     let tb = v["b"].as_str().ok_or("no b")?;
     let vs = merge_and_check(&g, ta, tb)?;
